@@ -1398,7 +1398,15 @@ fn run_inner(prog: &Arc<Program>)
             Step::AppSetup => { app.setup_auto_despawn(); }
         }
         log(Ev::StepEnd(i));
-        if let Some(b) = bystander.as_mut() { b.step(); }
+        if let Some(b) = bystander.as_mut()
+        {
+            // the runner hook is process-wide: the other world's reaction trees are not part of the observed trace
+            #[cfg(ukoehb_bevy_cobweb_verif)]
+            bevy_cobweb::verif::set_runner_hook(None);
+            b.step();
+            #[cfg(ukoehb_bevy_cobweb_verif)]
+            bevy_cobweb::verif::set_runner_hook(Some(runner_hook));
+        }
         let post = post_obs(app.world_mut());
         log(Ev::Post(Box::new(post)));
     }
